@@ -168,8 +168,12 @@ func (r *prefetchedReader) verdict(err error, buffered int) error {
 func (m MatchHTTP) isHttp(data []byte) (bool, bool) {
 	// try to find the end of a http request line, for example " HTTP/1.1\r\n"
 	i := bytes.IndexByte(data, 0x0a) // find first new line
-	if i < 10 {
+	if i < 0 {
 		return true, false
+	}
+	if i < 10 {
+		// the first line has ended and is shorter than any request line: more data will not change that
+		return false, false
 	}
 	// assume only \n line ending
 	start := i - 9 // position of space in front of HTTP
